@@ -203,8 +203,17 @@ func (reader *H265Reader) NextNAL() (*NAL, error) {
 		return nil, io.EOF
 	}
 
+	// The last unit of the stream is not terminated by a start code, so it never
+	// passes through the SEI test inside the loop.
+	naluType := NalUnitType((reader.nalBuffer[0] & 0x7E) >> 1)
+
 	nal := newNal(reader.nalBuffer)
 	reader.nalBuffer = nil
+
+	if reader.shouldSkipNAL(naluType) {
+		return nil, io.EOF
+	}
+
 	nal.parseHeader()
 
 	return nal, nil
